@@ -5,7 +5,7 @@ SPEC = {'level': 'exploration',
                  'c01_txinputs / c01_feeacc: coin values that no validated chain can contain are injected directly into a coins view; '
                  'values are clamped so the implementation\'s int64 running input sum cannot overflow before its range check (precondition: coins come from validated outputs)'],
  'stages': [gen('vh_c01', 'c01_supply', 400, 6000, min_cases_quick=60, max_seconds_quick=900, max_seconds_thorough=7200,
-                floors={'has-rejected-fault': 0.4, 'fee-tx-on-active-chain': 0.5, 'reorg': 0.12, 'crossed-halving': 0.1, 'overtake': 0.1},
+                floors={'fault:cb-sum-wraps-2^64': 0.04, 'fault:tx-sum-wraps-2^64': 0.04, 'has-rejected-fault': 0.4, 'fee-tx-on-active-chain': 0.5, 'reorg': 0.12, 'crossed-halving': 0.1, 'overtake': 0.1},
                 rule='supply histories; non-trivial = >=1 rejected value-rule fault + >=1 fee-paying tx on the active chain + >=1 reorg'),
             gen('vh_c01', 'c01_feeacc', 200, 3000, min_cases_quick=40, max_seconds_quick=600, max_seconds_thorough=3600,
                 floors={'rejected:bad-txns-accumulated-fee-outofrange': 0.03, 'rejected:bad-txns-inputvalues-outofrange': 0.05, 'accepted': 0.1},
